@@ -70,6 +70,67 @@ Theorem C16_signers : forall e evs os s c l,
                 sg_verify (s_sigma (r_sig r)) (p_vk q) (payload (e_cur e) (o_msg o)) = true.
 Proof. exact signers_signed. Qed.
 
+(* ---- across an epoch change: the store of the new epoch starts empty, the buffer is carried over
+   unchanged (whatever was put there before, by whichever registration it was authenticated); every
+   row stored afterwards verifies under the key its party registered for the NEW epoch ---- *)
+Theorem C16_bound_after_epoch_change : forall e1 evs1 os1 s1 e2 evs2 os2 s2 r,
+  run_from e1 st0 evs1 = (os1, s1) ->
+  run_from e2 (epoch_change s1) evs2 = (os2, s2) -> In r (st_rows s2) ->
+  exists o q, find_open s2 (r_ent r) = Some o /\
+              find_party (e_cur e2) (s_label (r_sig r)) = Some q /\
+              sg_verify (s_sigma (r_sig r)) (p_vk q) (payload (e_cur e2) (o_msg o)) = true.
+Proof. intros e1 evs1 os1 s1 e2 evs2 os2 s2 r _. apply bound_from, Inv_epoch_change. Qed.
+
+Theorem C16_signers_after_epoch_change : forall e1 evs1 os1 s1 e2 evs2 os2 s2 c l,
+  run_from e1 st0 evs1 = (os1, s1) ->
+  run_from e2 (epoch_change s1) evs2 = (os2, s2) -> In c (st_certs s2) -> In l (c_signers c) ->
+  exists r o q, In r (st_rows s2) /\ r_ent r = c_ent c /\ s_label (r_sig r) = l /\
+                find_open s2 (c_ent c) = Some o /\ find_party (e_cur e2) l = Some q /\
+                sg_verify (s_sigma (r_sig r)) (p_vk q) (payload (e_cur e2) (o_msg o)) = true.
+Proof. intros e1 evs1 os1 s1 e2 evs2 os2 s2 c l _. apply signers_signed_from, Inv_epoch_change. Qed.
+
+(* ---- signed entity types: creating an open message hands over / removes only the buffered
+   signatures of ITS type; those of every other type stay exactly as they were ---- *)
+Theorem C16_open_other_types : forall e s ent msg o s' b,
+  step e s (Open ent msg) = (o, s') -> fst b <> ety ent ->
+  (In b (st_buf s') <-> In b (st_buf s)).
+Proof. exact open_other_types. Qed.
+
+(* ---- DMQ batches: a batch is its signatures one after the other (an invalid one stops nothing);
+   the error reported is "one of them was invalid" ---- *)
+Theorem C16_batch_as_subs : forall e l s,
+  snd (batch e s l) = snd (run_from e s (map (fun x => Sub Dmq (fst x) 0 (snd x)) l)).
+Proof. exact batch_as_subs. Qed.
+
+Theorem C16_batch_error_iff : forall e l s,
+  fst (batch e s l) = existsb (fun o => obs_eqb o (ON 11))
+                        (fst (run_from e s (map (fun x => Sub Dmq (fst x) 0 (snd x)) l))).
+Proof. exact batch_error_iff. Qed.
+
+(* non-vacuity of the epoch change: party B rotates its key (11 -> 111) for the next epoch.  Its
+   signature for the coming entity, made with the NEW key, is authenticated by the next stake
+   distribution and buffered before the change, and handed over after it; a signature made with the
+   key of the PAST epoch under B's name is refused after the change; the buffered signature of
+   another signed entity type (1007) is not touched by opening entity 8. *)
+Definition pB' := {| p_label := 1; p_vk := 111; p_stake := 5 |}.
+Definition reg3' : reg := [pA; pB'; pC].
+Definition lot3' : lottery := lot3 ++ [ (sigma_of pB' reg3' 80, 5, [1; 2]); (sigma_of pB' reg3' 81, 5, [3]) ].
+Example C16_ex_epoch_change :
+  run2 {| e_lot := lot3'; e_cur := reg3; e_next := reg3'; e_k := 6 |}
+       [ Sub Http 8 80 {| s_label := 1; s_sigma := sigma_of pB' reg3' 80; s_slot := 1; s_idxs := [1; 2]; s_won := [1; 2] |};
+         Sub Http 1007 81 {| s_label := 1; s_sigma := sigma_of pB' reg3' 81; s_slot := 1; s_idxs := [3]; s_won := [3] |} ]
+       {| e_lot := lot3'; e_cur := reg3'; e_next := reg3'; e_k := 6 |}
+       [ Open 8 80;
+         Batch [ (8, {| s_label := 1; s_sigma := sigma_of pB reg3 80; s_slot := 1; s_idxs := []; s_won := [] |}) ] ]
+  = OL [ OL [ON BUFFERED; ON BUFFERED];
+         OL [ OL []; OL [ OL [ON 0; OL [ON 1; OL [ON 111; ON 80; ON 1]; ON 1; OLN [1; 2]; OLN [1; 2]]];
+                          OL [ON 1; OL [ON 1; OL [ON 111; ON 81; ON 1]; ON 1; OLN [3]; OLN [3]]] ]; OL [] ];
+         OL [ON 0; ON 11];
+         OL [ OL [ OL [ON 8; OL [ON 1; OL [ON 111; ON 80; ON 0]; ON 1; OLN [1; 2]; OLN [1; 2]]] ];
+              OL [ OL [ON 1; OL [ON 1; OL [ON 111; ON 81; ON 0]; ON 1; OLN [3]; OLN [3]]] ];
+              OL [] ] ].
+Proof. vm_compute. reflexivity. Qed.
+
 (* non-vacuity: three honest parties, buffered + direct submissions, a relabel attempt that is
    rejected, quorum reached, certificate lists exactly the three *)
 Example C16_ex :
